@@ -41,3 +41,73 @@ def register(PROPS, h):
         runs=dict(quick=[native("h-cob", "C06")],
                   thorough=[native("h-cob", "C06"), native("h-cob", "C06", profile="release")]),
     )
+
+    PROPS["C05"] = dict(
+        title="Collaborative object state is a function of the change set",
+        level="exploration",
+        technique="runtime differential monitor: the same change commits loaded through permuted/duplicated/incremental reference placements by the real evaluators, plus a recording evaluator behind a Store wrapper that reorders objects()",
+        rule=("Issue and patch change DAGs of 4-15 (thorough: 4-21) changes with 45% forks, merges, equal timestamps (so the "
+              "(timestamp, oid) tie-break decides), rejected changes and unprivileged actions. Each DAG is evaluated with the "
+              "tips (i) under every permutation of namespaces (<= 5 tips: all; else 8 random), (ii) plus 1-4 extra references to "
+              "interior changes / duplicates in shuffled namespaces, (iii) added one by one in random order with an evaluation "
+              "after each; and (iv) by a recording Evaluate impl (logs apply order and each call's concurrent set, with and "
+              "without rejections) through a Store wrapper returning objects() in every permutation and with duplicates. "
+              "Oracle: state, change set, edges and tips identical to the base evaluation. Non-trivial = DAG with concurrent "
+              "branches and a timestamp tie; distinct by object id."),
+        assumptions=COB_TB + ["enumeration order of references follows ref names, so namespace permutation reorders enumeration"],
+        gates=dict(quick={"issue.with-concurrent-branches-and-timestamp-tie": 60, "patch.with-concurrent-branches-and-timestamp-tie": 60, "variant.tips-under-permuted-namespaces": 800, "variant.recording-evaluator-reordered-objects": 2000, "issue.with-several-tips": 40},
+                   thorough={"issue.with-concurrent-branches-and-timestamp-tie": 1500, "variant.recording-evaluator-reordered-objects": 40000}),
+        runs=dict(quick=[native("h-cob", "C05")], thorough=[native("h-cob", "C05"), native("h-cob", "C05", profile="release")]),
+    )
+    PROPS["C07"] = dict(
+        title="Issue and patch actions obey the authorization rules",
+        level="exploration",
+        technique="runtime monitor over prefix evaluations: field-wise state diff of consecutive real evaluations attributed to the author's role (oracle independent of authorization())",
+        rule=("Issue and patch histories of 5-15 (thorough: 5-30) changes generated incrementally with every action variant "
+              "offered to every role (delegate, object author, comment/review author, stranger) including privileged actions by "
+              "unprivileged actors, no-op label/assign, edits/redactions of other people's comments and reviews, forks and "
+              "timestamp ties. After EVERY change the prefix is evaluated by the real evaluator. If the change is absent from "
+              "the returned history the state (and history) must equal the previous prefix exactly. If it was applied last "
+              "(recomputed traversal order), the diff to the previous prefix is attributed to its author: assignees/labels/"
+              "merges changed => delegate; title/target/lifecycle changed => delegate or object author; an existing comment or "
+              "review edited or redacted => its author or a delegate. Non-trivial = history with > 4 changes; distinct by object id."),
+        assumptions=COB_TB + ["delegates are those of the (fixed) identity document every change commits to"],
+        gates=dict(quick={"attributed.by-non-delegate": 1200, "changes-rejected": 800, "fed.issue.assign.by-other": 60, "fed.issue.label.by-other": 60, "fed.issue.edit.by-other": 60, "fed.issue.comment.edit.by-other": 30,
+                          "fed.patch.merge.by-other": 60, "fed.patch.assign.by-other": 40, "fed.patch.lifecycle.by-other": 40, "fed.patch.review.edit.by-other": 5, "observed.issue.title-changed": 100, "observed.patch.merges-changed": 30},
+                   thorough={"attributed.by-non-delegate": 30000, "changes-rejected": 20000}),
+        runs=dict(quick=[native("h-cob", "C07")], thorough=[native("h-cob", "C07"), native("h-cob", "C07", profile="release")]),
+    )
+    PROPS["C08"] = dict(
+        title="A patch is merged only by a threshold of agreeing delegates",
+        level="exploration",
+        technique="runtime monitor over prefix evaluations of generated merge histories with harness-known commit ancestry and delegate branch positions",
+        rule=("Per case a fresh repository with 1-4 delegates, threshold 1..n, delegates' default branches on a known commit "
+              "chain; histories of 4-15 (thorough: 4-23) changes: merges by delegates and non-delegates of agreeing/disagreeing "
+              "(revision, commit) pairs incl. commits not on the branch, new and redacted revisions, 1-2 lifecycle actions by "
+              "author/delegates, default branches moved between evaluations. After every change (and every branch move) the "
+              "real evaluator runs on the prefix. Oracle: state Merged{r,c} => at least threshold distinct delegates have a "
+              "surviving merge of exactly (r,c) whose commit is on their default branch now (harness ancestry); a lifecycle-only "
+              "change applied last (or rejected) leaves a Merged state untouched. Non-trivial = history that reached Merged; distinct by case seed."),
+        assumptions=COB_TB + ["weakest reading of 'have recorded': a merge action anywhere in the surviving history counts, even if later overridden"],
+        gates=dict(quick={"merged-states-checked": 2500, "merged-states-checked.threshold>=2": 600, "lifecycle-on-merged-patch-checked": 500, "histories-with-conflicting-merges": 10, "fed.default-branch-moved": 200},
+                   thorough={"merged-states-checked": 40000, "merged-states-checked.threshold>=2": 10000}),
+        runs=dict(quick=[native("h-cob", "C08")], thorough=[native("h-cob", "C08"), native("h-cob", "C08", profile="release")]),
+    )
+    PROPS["C09"] = dict(
+        title="The COB cache answers exactly like direct evaluation",
+        level="exploration",
+        technique="runtime differential monitor: every query on Cache<_, StoreWriter> vs Cache::no_cache after every operation; cache fed by the real post-fetch updater (hook) and the cached API; valgrind memcheck on a subset (sqlite)",
+        rule=("Per case a fresh repository and in-memory cache DB; 6-17 (thorough: 6-35) operations: issues/patches created and "
+              "extended behind the cache's back with the change writer (comments, edits, redactions, revisions, reviews, review "
+              "comments, lifecycle, merges, labels, assigns; forks) followed by the real worker::fetch::cache_cobs with the "
+              "matching RefUpdates; objects removed by deleting their refs; creates and lifecycle changes through the cached "
+              "high-level API. After EVERY operation: get (known + unknown ids), list, list_by_status (all statuses / issue "
+              "states incl. both close reasons), counts, is_empty for issues and patches, and find_by_revision for EVERY 40-hex id "
+              "occurring anywhere inside any patch (patch ids, live and redacted revision ids, comment ids, review ids, code "
+              "commits) plus an unknown id, asked of both; answers compared as JSON (Err vs Ok differs). Non-trivial/distinct = case seed."),
+        assumptions=COB_TB + ["bundled sqlite", "error messages are not compared, only Ok-vs-Err and Ok payloads"],
+        gates=dict(quick={"query.patch.find_by_revision(other-nested-or-unknown-id)": 10000, "query.patch.find_by_revision(revision-id)": 3000, "op.fetched-update-through-cache_cobs": 1500, "op.through-cached-api": 150,
+                          "patch-status-populated.open": 100, "patch-status-populated.draft": 10, "patch-status-populated.merged": 10, "patch-status-populated.archived": 5},
+                   thorough={"query.patch.find_by_revision(other-nested-or-unknown-id)": 200000}),
+        runs=dict(quick=[native("h-cob", "C09")], thorough=[native("h-cob", "C09"), native("h-cob", "C09", profile="release"), valgrind("h-cob", "C09", cases=24, shards=8)]),
+    )
